@@ -8,7 +8,10 @@ LEVEL = 'proof'
 
 PROFILE = {
     'weights': {'open': 3, 'connect': 10, 'client_disconnect': 4, 'event': 2, 'ack': 0, 'emit': 3, 'emit_cb': 0,
-                'api_disconnect': 4, 'enter': 3, 'leave': 1, 'close': 1, 'rooms': 2, 'lost': 3, 'partial_binary': 0},
+                'api_disconnect': 4, 'enter': 3, 'leave': 1, 'close': 1, 'rooms': 2, 'lost': 3, 'partial_binary': 0,
+                # "... while the same transport's other namespaces are unaffected": a session is ended by disconnect()
+                # while a multi-frame (binary) event of the same transport is half received
+                'binary_across_end': 5},
     'connect_outcomes': {'accept': 5, 'false': 2, 'refuse': 4, 'raise': 0},
     'async_handlers': False,
     # "from then on that session id is in no room and is never delivered to again": the application goes on using
@@ -67,8 +70,66 @@ def is_conn(slot):
     return slot[2] in ('connect', 'on_connect')
 
 
+def responsible_slot(cfg, ns, ev):
+    """documented precedence for an ordinary event, as the slot that has to run: function handlers ns/event, ns/*,
+    */event, */* (an event literally named '*' only reaches catch-alls), then the class-based namespace of ns, then the
+    catch-all one (None when its class has no such method: nothing is invoked)"""
+    fns = [tuple(f) for f in cfg['fn']]
+    for key in ([(ns, ev)] if ev != '*' else []) + [(ns, '*')] + ([('*', ev)] if ev != '*' else []) + [('*', '*')]:
+        if key in fns:
+            return ('fn',) + key
+    for want_ns in (ns, '*'):
+        for cns, ms in cfg['cls']:
+            if cns == want_ns:
+                return ('cls', cns, 'on_' + ev) if ('on_' + ev) in ms else None
+    return None
+
+
+def judge_event(cfg, op, im, p, sid, pkts, ends, fails):
+    """A complete EVENT / BINARY_EVENT of a client: a live session's event is dispatched -- the responsible handler
+    once, with the session id and the reconstructed arguments, acknowledged when it carries an id -- exactly as if
+    nothing else had ended meanwhile (`ends`: the sessions that ended while its attachments were outstanding); an
+    event for a namespace the client has no live session on is not handled."""
+    t, ns, data = op['t'], p['ns'], p['data']
+    if cfg['asyncHandlers'] or not (isinstance(data, list) and data and isinstance(data[0], str)
+                                    and data[0] not in ('connect', 'disconnect')):
+        return
+    ctx_txt = (' (while its attachments were outstanding, disconnect() ended %s)' % ', '.join(
+        '%s on %s [%s]' % e for e in ends)) if ends else ''
+    evs = [i for i in im['invokes'] if not is_conn(i[0]) and not is_disc(i[0])]
+    acks = [(tt, q) for tt, q in pkts if q['type'] in (3, 6)]
+    if [1 for tt, q in pkts if q['type'] not in (3, 6)]:
+        fails.append((None, 'a client event caused packets other than its acknowledgement: %r%s' % (pkts, ctx_txt)))
+    if sid is None:
+        if evs or acks:
+            fails.append((None, 'an event for %s, where transport %s has no live session, was handled: %r %r%s'
+                          % (ns, t, evs, acks, ctx_txt)))
+        return
+    want = responsible_slot(cfg, ns, data[0])
+    if want is None:
+        if evs:
+            fails.append((None, 'an event nobody is responsible for invoked %r' % (evs,)))
+    elif len(evs) != 1 or tuple(evs[0][0]) != want:
+        fails.append((None, 'event %r of the live session %s on %s (transport %s) must be dispatched to %r exactly once; '
+                            'invoked: %r, contained error: %r%s' % (data, sid, ns, t, want, evs, im['raised'], ctx_txt)))
+    for slot, args in evs:
+        pos = S.sid_position(slot)
+        if len(args) <= pos or args[pos] != sid or not C.same(list(args[pos + 1:]), list(data[1:])):
+            fails.append((None, 'handler arguments %r are not the session id %s + the event\'s arguments %r%s'
+                          % (args, sid, data[1:], ctx_txt)))
+    responsible = bool(evs) or any(c[0] in (ns, '*') for c in cfg['cls'])
+    if p['id'] is None or not responsible or im['handler_raised']:
+        if acks:
+            fails.append((None, 'unexpected acknowledgement %r of %r%s' % (acks, data, ctx_txt)))
+    elif want is not None and (len(acks) != 1 or acks[0][0] != t or acks[0][1]['id'] != p['id']
+                               or acks[0][1]['ns'] != ns):
+        fails.append((None, 'event %r with id %r of the live session %s on %s must be acknowledged once to %s; sent: %r%s'
+                      % (data, p['id'], sid, ns, t, acks, ctx_txt)))
+
+
 def oracle(cfg, trace, residue):
     fails = []
+    half = {}             # tid -> sessions ended by disconnect() while a client packet of tid is incomplete
     conn = {}             # (tid, ns) -> sid (accepted, not ended)
     ever = set()          # every sid ever announced
     ended = {}            # sid -> number of disconnect-handler runs
@@ -183,9 +244,27 @@ def oracle(cfg, trace, residue):
                 end(sid, p['ns'], 'client_disconnect')
             if sid is not None and S.has_handler(cfg, p['ns'], 'disconnect') and ended.get(sid, 0) != 1:
                 fails.append((None, 'client DISCONNECT processed but the disconnect handler ran %d times' % ended.get(sid, 0)))
+        elif p == 'incomplete':
+            half.setdefault(op['t'], [])
+            if im['invokes'] or pkts:
+                fails.append((None, 'handler or packet before the attachments of a client packet are complete: %r' % (op,)))
+        elif isinstance(p, dict) and p['type'] in (2, 5):
+            ends = half.pop(op['t'], None)
+            for e in set(x[2] for x in ends or []):
+                stat('event_completed_after_disconnect_of.' + e)
+                if p['id'] is not None:
+                    stat('event_completed_after_disconnect_of.%s.with_id' % e)
+            if ends:
+                stat('events_completed_after_a_disconnect_while_half_received')
+            judge_event(cfg, op, im, p, conn.get((op['t'], p['ns'])), pkts, ends, fails)
         elif op['op'] == 'disconnect':
             hit = [k for k, v in conn.items() if v == op['sid'] and k[1] == op['ns']]
             for k in hit:
+                for tt, lst in half.items():
+                    pend_ns = cf.pending_ns(tt)
+                    lst.append((op['sid'], k[1], 'another_transport' if tt != k[0] else
+                                'the_namespace_the_packet_is_for' if pend_ns == k[1] else
+                                'another_namespace_of_the_same_transport'))
                 sid = conn.pop(k)
                 end(sid, k[1], 'server_disconnect')
                 if [(tt, q['type'], q['ns']) for tt, q in pkts] != [(k[0], 1, k[1])]:
@@ -194,6 +273,7 @@ def oracle(cfg, trace, residue):
                     fails.append((None, 'disconnect() processed but the handler ran %d times' % ended.get(sid, 0)))
         elif op['op'] == 'lost':
             cf.drop(op['t'])
+            half.pop(op['t'], None)
             open_t.discard(op['t'])
             for k in [k for k in conn if k[0] == op['t']]:
                 sid = conn.pop(k)
@@ -279,7 +359,7 @@ def run(ctx):
     S.run_cases(ctx, PROFILE, ctx.scale(150, 3000), 45, oracle=oracle, nontrivial=measure, final_lose_all=True,
                 probe_pre=probe_pre, probe_post=probe_post)
     for k, v in sorted(STATS.items()):
-        ctx.count('no_live_session.' + k, v)
+        ctx.count(k if k.startswith('event') else 'no_live_session.' + k, v)
     ctx.coverage['stale_session_id_calls'] = {
         'rule': 'server API calls (enter_room, rooms, then emit to that room) whose (sid, namespace) names no live '
                 'session: ids that ended by client DISCONNECT / disconnect() / transport loss, refused ids, live ids '
@@ -292,6 +372,18 @@ def run(ctx):
             for c in ('client_disconnect', 'server_disconnect', 'transport_loss')},
         'rooms': sum(v for k, v in STATS.items() if k.startswith('rooms.')),
         'emit_to_the_room_afterwards': STATS['emit_to_the_room_afterwards'],
+    }
+    ctx.coverage['half_received_event_across_a_disconnect'] = {
+        'rule': 'header of a multi-frame (binary) event for namespace B of a transport connected to >=2 namespaces; '
+                'before the remaining attachments the server ends, with disconnect(), another namespace of that transport '
+                '/ all its other namespaces / a session of another transport / B itself (sometimes with a broadcast in '
+                'between); then the attachments. Oracle (every complete client event of these histories): a live '
+                'session\'s event is dispatched once to the responsible handler with sid + the reconstructed arguments '
+                'and acknowledged when it has an id; an event for an ended session is not handled; also part of the '
+                'model correspondence',
+        'events_completed_after_a_disconnect': STATS['events_completed_after_a_disconnect_while_half_received'],
+        'by_what_ended': {k.split('.', 1)[1]: v for k, v in sorted(STATS.items())
+                          if k.startswith('event_completed_after_disconnect_of.')},
     }
     ctx.coverage['rule'] = ('histories over CONNECT(ns, auth)/DISCONNECT/transport loss/disconnect()/broadcasts for several transports '
                             'and namespaces, handlers accepting / returning False / raising ConnectionRefusedError(0-3 args), '
